@@ -54,17 +54,17 @@ func AddUint64(p *uint64, d uint64) uint64 {
 
 type Int64 struct{ v int64 }
 
-func (x *Int64) Load() int64           { return LoadInt64(&x.v) }
-func (x *Int64) Store(v int64)         { StoreInt64(&x.v, v) }
-func (x *Int64) Add(d int64) int64     { return AddInt64(&x.v, d) }
-func (x *Int64) Swap(v int64) int64    { return SwapInt64(&x.v, v) }
+func (x *Int64) Load() int64                    { return LoadInt64(&x.v) }
+func (x *Int64) Store(v int64)                  { StoreInt64(&x.v, v) }
+func (x *Int64) Add(d int64) int64              { return AddInt64(&x.v, d) }
+func (x *Int64) Swap(v int64) int64             { return SwapInt64(&x.v, v) }
 func (x *Int64) CompareAndSwap(o, n int64) bool { return CompareAndSwapInt64(&x.v, o, n) }
 
 type Int32 struct{ v int32 }
 
-func (x *Int32) Load() int32           { return LoadInt32(&x.v) }
-func (x *Int32) Store(v int32)         { StoreInt32(&x.v, v) }
-func (x *Int32) Add(d int32) int32     { return AddInt32(&x.v, d) }
+func (x *Int32) Load() int32                    { return LoadInt32(&x.v) }
+func (x *Int32) Store(v int32)                  { StoreInt32(&x.v, v) }
+func (x *Int32) Add(d int32) int32              { return AddInt32(&x.v, d) }
 func (x *Int32) CompareAndSwap(o, n int32) bool { return CompareAndSwapInt32(&x.v, o, n) }
 
 type Bool struct{ v int32 }
@@ -82,3 +82,35 @@ type Value struct{ v atomic.Value }
 
 func (x *Value) Load() any   { point("load", true); return x.v.Load() }
 func (x *Value) Store(v any) { point("store", false); x.v.Store(v) }
+
+// Pointer, Uint32, Uint64, Uintptr: the remaining typed atomics, so that a change to the library that starts using
+// them still builds through the overlay and stays under the controlled scheduler.
+type Pointer[T any] struct{ v atomic.Pointer[T] }
+
+func (x *Pointer[T]) Load() *T     { point("load", true); return x.v.Load() }
+func (x *Pointer[T]) Store(p *T)   { point("store", false); x.v.Store(p) }
+func (x *Pointer[T]) Swap(p *T) *T { point("swap", false); return x.v.Swap(p) }
+func (x *Pointer[T]) CompareAndSwap(o, n *T) bool {
+	point("cas", false)
+	return x.v.CompareAndSwap(o, n)
+}
+
+type Uint32 struct{ v uint32 }
+
+func (x *Uint32) Load() uint32        { return LoadUint32(&x.v) }
+func (x *Uint32) Store(v uint32)      { StoreUint32(&x.v, v) }
+func (x *Uint32) Add(d uint32) uint32 { point("add", false); return atomic.AddUint32(&x.v, d) }
+func (x *Uint32) CompareAndSwap(o, n uint32) bool {
+	point("cas", false)
+	return atomic.CompareAndSwapUint32(&x.v, o, n)
+}
+
+type Uint64 struct{ v uint64 }
+
+func (x *Uint64) Load() uint64        { return LoadUint64(&x.v) }
+func (x *Uint64) Store(v uint64)      { StoreUint64(&x.v, v) }
+func (x *Uint64) Add(d uint64) uint64 { return AddUint64(&x.v, d) }
+func (x *Uint64) CompareAndSwap(o, n uint64) bool {
+	point("cas", false)
+	return atomic.CompareAndSwapUint64(&x.v, o, n)
+}
